@@ -72,34 +72,34 @@ type AtCall struct {
 }
 
 type FuncContract struct {
-	Name      string
-	File      string
-	Line      int
-	Requires  []Clause
-	Exits     []Clause // checked at every normal return; may name locals (their final values); never assumed by callers
+	Name        string
+	File        string
+	Line        int
+	Requires    []Clause
+	Exits       []Clause // checked at every normal return; may name locals (their final values); never assumed by callers
 	PostAssumes []Clause // unchecked facts about the result, assumed at call sites only (a partly trusted contract); always reported
-	Assumes   []Clause // unchecked assumptions at entry (machine-arithmetic bounds); never imposed on callers, always reported
-	Ensures   []Clause
-	Modifies  []*SExpr
-	HasMod    bool
-	Loops     map[int]*LoopSpec
-	InlLoops  map[string]*LoopSpec // "callee#ord": extra invariants for loops of inlined callees
-	Asserts   []AtCall
-	Uses      []Clause // lemma instantiations (only proved lemmas may be used)
-	Insts     []InstHint // instantiation hints: candidate terms for quantifier binders
-	Inline    bool
-	BV        bool
-	Recovers  bool
-	Diverges  bool
-	Trusted   bool // contract is assumed, body not verified (external or listed)
-	NoSafe    bool
-	Ghost     []SBind
-	Cases     []Clause // named case split: each obligation is proved per case
-	Flags     map[string]string
-	attached  bool
-	InlineAll []string
-	Reveals   []string
-	Shared    []SharedSpec
+	Assumes     []Clause // unchecked assumptions at entry (machine-arithmetic bounds); never imposed on callers, always reported
+	Ensures     []Clause
+	Modifies    []*SExpr
+	HasMod      bool
+	Loops       map[int]*LoopSpec
+	InlLoops    map[string]*LoopSpec // "callee#ord": extra invariants for loops of inlined callees
+	Asserts     []AtCall
+	Uses        []Clause   // lemma instantiations (only proved lemmas may be used)
+	Insts       []InstHint // instantiation hints: candidate terms for quantifier binders
+	Inline      bool
+	BV          bool
+	Recovers    bool
+	Diverges    bool
+	Trusted     bool // contract is assumed, body not verified (external or listed)
+	NoSafe      bool
+	Ghost       []SBind
+	Cases       []Clause // named case split: each obligation is proved per case
+	Flags       map[string]string
+	attached    bool
+	InlineAll   []string
+	Reveals     []string
+	Shared      []SharedSpec
 }
 
 type PureFunc struct {
@@ -140,19 +140,19 @@ type Monitor struct {
 }
 
 type ContractFile struct {
-	Path     string
-	Funcs    []*FuncContract
-	Pures    []*PureFunc
-	Lemmas   []*Lemma
-	Monitors []*Monitor
-	Consts   map[string]*SExpr
-	Secrets  []string
-	Sinks    []string
-	Raw      []string
+	Path      string
+	Funcs     []*FuncContract
+	Pures     []*PureFunc
+	Lemmas    []*Lemma
+	Monitors  []*Monitor
+	Consts    map[string]*SExpr
+	Secrets   []string
+	Sinks     []string
+	Raw       []string
 	ZeroFacts []ZeroFact
 	WriteSets []string
 	GhostVars map[string]string
-	Tables   map[string]*OracleTable
+	Tables    map[string]*OracleTable
 	RowChecks []*RowCheck
 }
 
